@@ -120,6 +120,16 @@ DESC = {
 "C15j": "default urljoin cache is one module-level lru shared by all resolvers (stale after the program registers a scheme with urllib)", "C16j": "draft4_format_checker and draft6_format_checker are the same FormatChecker instance",
 "C17j": "ErrorTree.__len__ counts with a work list keyed by child index (a reused index one level down overwrites a pending subtree)", "C18j": "thread-local nesting-depth budget bumped in iter_errors and held across yields",
 "C19j": "argument parser built with fromfile_prefix_chars='@'", "C20j": "validate() passes an explicit cls only as the default of validator_for",
+"C01k": "multipleOf unified on the float-quotient test (integer divisor and instance with a quotient beyond 2**53)", "C02k": "RefResolver remembers failed retrievals and re-raises them for every later reference into that document",
+"C03k": "remembered retrieval failures are re-raised RAW (KeyError / URLError) on the second use", "C04k": "properties() (drafts 4/6/7) looks members up with try instance[property] (a defaultdict instance changes between entry points)",
+"C05k": "patternProperties collects matches in a dict keyed by member name (a member matching two patterns keeps only the last)", "C06k": "absolute_path returns early when the parent's relative path is empty (grandparents' steps dropped)",
+"C07k": "ref() restores the scope stack by truncating to its entry depth instead of pop_scope()", "C08k": "unbool() carries an identity-based visited set (a container object occurring twice is left un-normalised)",
+"C09k": "draft-6/7 maximum skipped when the sibling exclusiveMaximum is 'at least as strict' (comparison copied unflipped from minimum)", "C10k": "iter_errors runs keywords in TABLE order once an object has more members than the draft has keywords",
+"C11k": "module-level set of (instance, referent) pairs in ref() as a cycle guard, emptied only when the generator finishes", "C12k": "per-instance keyword table leaves `format` out when the checker knows no format at construction",
+"C13k": "is_regex only runs the regex parser (variable-width look-behinds accepted)", "C14k": "RefResolver.__init__ files the referrer with store.setdefault (a pre-seeded entry of the same name wins)",
+"C15k": "RefResolver.from_schema's explicit signature forgets to forward cache_remote", "C16k": "create() keeps the caller's keyword table and metaschema mappings instead of copying them",
+"C17k": "childless ErrorTree nodes share one class-level children mapping (written through __setitem__)", "C18k": "resolve_remote writes the retrieval URL into the fetched document as its $id",
+"C19k": "--error-format gets a type= callable that trial-formats against a blank error", "C20k": "validate() builds the validator before it checks the schema",
 }
 MISSED = set("C03 C07 C12 C15 C16 C20 C02b C06b C07b C10b C11b C14b C19b C01c C02c C06c C10c C12c C15c C16c C18c C19c C20c "
              "C02d C04d C05d C07d C09d C13d C15d C16d C18d C19d C20d "
@@ -128,7 +138,8 @@ MISSED = set("C03 C07 C12 C15 C16 C20 C02b C06b C07b C10b C11b C14b C19b C01c C0
              "C01g C02g C05g C08g C09g C10g C12g C14g C16g C18g "
              "C01h C02h C03h C04h C05h C06h C09h C12h C14h C18h C19h C20h "
              "C04i C06i C10i C15i C16i C17i C18i C19i C20i "
-             "C02j C04j C05j C06j C07j C08j C10j C13j C15j C19j".split())
+             "C02j C04j C05j C06j C07j C08j C10j C13j C15j C19j "
+             "C02k C04k C08k C10k C11k C12k C14k C17k C18k C19k C20k".split())
 rows = []
 for name in sorted(os.listdir(os.path.join(HERE, "seeded"))):
     mp = os.path.join(HERE, "seeded", name, "meta.json")
